@@ -2,6 +2,7 @@ package c03
 
 import (
 	"fmt"
+	"math"
 	"math/big"
 	"testing"
 
@@ -13,30 +14,97 @@ import (
 	"pgregory.net/rapid"
 )
 
-// RTCase: one encryption into an *rlwe.Ciphertext followed by decryption.
+// RTStep is one use of the session's encryptor and decryptor.
+type RTStep struct {
+	API      string   `json:"api"`      // "Encrypt" | "EncryptNew" | "EncryptZero" | "EncryptNil" | "EncryptZeroNew"
+	Degree   int      `json:"degree"`   // degree of the target ciphertext (0,1,2)
+	PtLevel  int      `json:"ptLevel"`  // level of the plaintext
+	CtLevel  int      `json:"ctLevel"`  // level of the target ciphertext (before Encrypt)
+	DecLevel int      `json:"decLevel"` // level of the plaintext receiving the decryption (-1: that of the ciphertext)
+	IsNTT    bool     `json:"isNTT"`
+	IsMont   bool     `json:"isMont"`
+	Meta     MetaSpec `json:"meta"`
+	Pattern  string   `json:"pattern"`
+	Dirty    bool     `json:"dirty"`              // fresh target ciphertext / output plaintext pre-filled with junk
+	DecRoute string   `json:"decRoute"`           // "Decrypt" | "DecryptNew" | "shallow" | "withkey"
+	ReuseCt  bool     `json:"reuseCt,omitempty"`  // encrypt into the ciphertext object produced by the previous step
+	ReuseOut bool     `json:"reuseOut,omitempty"` // decrypt into the plaintext object produced by the previous step
+}
+
+// RTCase: a session (parameters, keys, one encryptor obtained through a route, decryptors) and one to three uses of it;
+// the first use is given by the embedded step, later uses by More (they may re-use the previous ciphertext / plaintext
+// objects as receivers, which then have a real earlier life: other level, degree, flags, metadata).
 type RTCase struct {
-	Spec     h.RLWESpec `json:"spec"`
-	Seed     uint64     `json:"seed"`
-	Kind     string     `json:"kind"`     // "sk" | "pk"
-	Route    string     `json:"route"`    // how the encryptor is obtained
-	API      string     `json:"api"`      // "Encrypt" | "EncryptNew" | "EncryptZero" | "EncryptNil" | "EncryptZeroNew"
-	Degree   int        `json:"degree"`   // degree of the target ciphertext (0,1,2)
-	PtLevel  int        `json:"ptLevel"`  // level of the plaintext
-	CtLevel  int        `json:"ctLevel"`  // level of the target ciphertext (before Encrypt)
-	DecLevel int        `json:"decLevel"` // level of the plaintext receiving the decryption
-	IsNTT    bool       `json:"isNTT"`
-	IsMont   bool       `json:"isMont"`
-	Meta     MetaSpec   `json:"meta"`
-	Pattern  string     `json:"pattern"`
-	PtSeed   uint64     `json:"ptSeed"`
-	Dirty    bool       `json:"dirty"`    // target ciphertext / output plaintext pre-filled with junk
-	DecRoute string     `json:"decRoute"` // "Decrypt" | "DecryptNew" | "shallow" | "withkey"
+	Spec   h.RLWESpec `json:"spec"`
+	Seed   uint64     `json:"seed"`
+	Kind   string     `json:"kind"`  // "sk" | "pk"
+	Route  string     `json:"route"` // how the encryptor is obtained
+	PtSeed uint64     `json:"ptSeed"`
+	RTStep
+	More []RTStep `json:"more,omitempty"`
 }
 
 func (c RTCase) RandSeed() uint64 { return c.Seed }
 
 var encRoutes = []string{"new", "shallow", "withkey-other", "nil-withkey", "kgen-withkey", "withprng", "withprng-shallow"}
 var decRoutes = []string{"Decrypt", "DecryptNew", "shallow", "withkey"}
+
+func genStep(t *rapid.T, spec h.RLWESpec, seededSk bool, later bool, label string) RTStep {
+	var st RTStep
+	L := len(spec.Q) - 1
+	lvl := func(l string) int {
+		switch rapid.IntRange(0, 3).Draw(t, label+l+"K") {
+		case 0:
+			return L
+		case 1:
+			return 0
+		}
+		return rapid.IntRange(0, L).Draw(t, label+l)
+	}
+	st.API = []string{"Encrypt", "Encrypt", "Encrypt", "Encrypt", "EncryptNew", "EncryptZero", "EncryptNil", "EncryptZeroNew"}[rapid.IntRange(0, 7).Draw(t, label+"api")]
+	st.PtLevel = lvl("ptLevel")
+	st.CtLevel = st.PtLevel
+	switch rapid.IntRange(0, 5).Draw(t, label+"ctLevelK") {
+	case 0:
+		st.CtLevel = lvl("ctLevel")
+	case 1, 2:
+		// receiver of a strictly higher level than the plaintext (e.g. allocated once at the top level and re-used)
+		if L > 0 {
+			st.PtLevel = rapid.IntRange(0, L-1).Draw(t, label+"ptLevelLow")
+			st.CtLevel = rapid.IntRange(st.PtLevel+1, L).Draw(t, label+"ctLevelHigh")
+		}
+	}
+	st.DecLevel = -1
+	switch rapid.IntRange(0, 5).Draw(t, label+"decLevelK") {
+	case 0:
+		st.DecLevel = lvl("decLevel")
+	case 1:
+		st.DecLevel = L // receiver at the top level, whatever the ciphertext
+	}
+	st.Degree = 1
+	if st.API == "Encrypt" || st.API == "EncryptZero" || st.API == "EncryptNil" {
+		switch rapid.IntRange(0, 5).Draw(t, label+"degree") {
+		case 0:
+			// a degree-0 target is the "compressed" form (c1 regenerated from the seeded PRNG): secret-key + WithPRNG only
+			if seededSk {
+				st.Degree = 0
+			}
+		case 1:
+			st.Degree = 2
+		}
+	}
+	st.IsNTT = rapid.Bool().Draw(t, label+"isNTT")
+	st.IsMont = rapid.IntRange(0, 3).Draw(t, label+"isMont") == 0
+	st.Meta = genMeta(t, spec.LogN, label)
+	st.Pattern = ptPatterns[rapid.IntRange(0, len(ptPatterns)-1).Draw(t, label+"pattern")]
+	st.Dirty = rapid.Bool().Draw(t, label+"dirty")
+	st.DecRoute = decRoutes[rapid.IntRange(0, len(decRoutes)-1).Draw(t, label+"decRoute")]
+	if later {
+		st.ReuseCt = rapid.IntRange(0, 2).Draw(t, label+"reuseCt") != 0
+		st.ReuseOut = rapid.Bool().Draw(t, label+"reuseOut")
+	}
+	return st
+}
 
 func genRT(t *rapid.T) RTCase {
 	var c RTCase
@@ -48,48 +116,18 @@ func genRT(t *rapid.T) RTCase {
 		c.Kind = "sk"
 	}
 	c.Route = encRoutes[rapid.IntRange(0, len(encRoutes)-1).Draw(t, "route")]
-	L := len(c.Spec.Q) - 1
-	lvl := func(label string) int {
-		switch rapid.IntRange(0, 3).Draw(t, label+"K") {
-		case 0:
-			return L
-		case 1:
-			return 0
-		}
-		return rapid.IntRange(0, L).Draw(t, label)
-	}
-	c.PtLevel = lvl("ptLevel")
-	c.CtLevel = c.PtLevel
-	if rapid.IntRange(0, 3).Draw(t, "ctLevelDiffers") == 0 {
-		c.CtLevel = lvl("ctLevel")
-	}
-	c.DecLevel = -1 // same as the ciphertext
-	if rapid.IntRange(0, 3).Draw(t, "decLevelDiffers") == 0 {
-		c.DecLevel = lvl("decLevel")
-	}
-	c.API = []string{"Encrypt", "Encrypt", "Encrypt", "EncryptNew", "EncryptZero", "EncryptNil", "EncryptZeroNew"}[rapid.IntRange(0, 6).Draw(t, "api")]
-	c.Degree = 1
-	if c.API == "Encrypt" || c.API == "EncryptZero" || c.API == "EncryptNil" {
-		switch rapid.IntRange(0, 5).Draw(t, "degree") {
-		case 0:
-			// a degree-0 target is the "compressed" form (c1 regenerated from the seeded PRNG): secret-key only
-			if c.Kind == "sk" {
-				c.Degree = 0
-				if c.Route != "withprng" && c.Route != "withprng-shallow" {
-					c.Route = "withprng"
-				}
-			}
-		case 1:
-			c.Degree = 2
-		}
-	}
-	c.IsNTT = rapid.Bool().Draw(t, "isNTT")
-	c.IsMont = rapid.IntRange(0, 3).Draw(t, "isMont") == 0
-	c.Meta = genMeta(t, c.Spec.LogN)
-	c.Pattern = ptPatterns[rapid.IntRange(0, len(ptPatterns)-1).Draw(t, "pattern")]
 	c.PtSeed = rapid.Uint64().Draw(t, "ptSeed")
-	c.Dirty = rapid.Bool().Draw(t, "dirty")
-	c.DecRoute = decRoutes[rapid.IntRange(0, len(decRoutes)-1).Draw(t, "decRoute")]
+	seededSk := c.Kind == "sk" && (c.Route == "withprng" || c.Route == "withprng-shallow")
+	if c.Kind == "sk" && !seededSk && rapid.IntRange(0, 5).Draw(t, "forceSeeded") == 0 {
+		c.Route, seededSk = "withprng", true
+	}
+	c.RTStep = genStep(t, c.Spec, seededSk, false, "")
+	if rapid.Bool().Draw(t, "hasMore") {
+		nm := rapid.IntRange(1, 2).Draw(t, "nMore")
+		for i := 0; i < nm; i++ {
+			c.More = append(c.More, genStep(t, c.Spec, seededSk, true, fmt.Sprintf("s%d_", i+1)))
+		}
+	}
 	return c
 }
 
@@ -148,129 +186,115 @@ func diffCentred(r *ring.Ring, a, b ring.Poly, isNTT bool) (raw, dom []*big.Int,
 	return
 }
 
+// rtSession is the state shared by the steps of a case.
+type rtSession struct {
+	c       RTCase
+	rec     *h.Rec
+	params  rlwe.Parameters
+	n, L    int
+	sk, sk2 *rlwe.SecretKey
+	pk      *rlwe.PublicKey
+	sInts   []int64
+	s2Ints  []int64
+	sStat   secretStats
+	key     rlwe.EncryptionKey
+	enc     *rlwe.Encryptor
+	decs    map[string]*rlwe.Decryptor
+	decW    *rlwe.Decryptor
+	aSamp   *ring.UniformSampler // regenerates the masks of a WithPRNG secret-key encryptor, in call order
+	rng     *h.SplitMix
+	path    string
+	prevCt  *rlwe.Ciphertext
+	prevOut *rlwe.Plaintext
+	keyHash uint64
+}
+
+func hashPoly(x uint64, p ring.Poly) uint64 {
+	for _, l := range p.Coeffs {
+		for _, v := range l {
+			x = (x ^ v) * 0x100000001b3
+		}
+	}
+	return x
+}
+
+func (s *rtSession) hashKeys() uint64 {
+	x := uint64(0xcbf29ce484222325)
+	for _, k := range []*rlwe.SecretKey{s.sk, s.sk2} {
+		x = hashPoly(x, k.Value.Q)
+		x = hashPoly(x, k.Value.P)
+	}
+	if s.pk != nil {
+		for _, v := range s.pk.Value {
+			x = hashPoly(x, v.Q)
+			x = hashPoly(x, v.P)
+		}
+	}
+	return x
+}
+
+func hashCt(ct *rlwe.Ciphertext) uint64 {
+	x := uint64(0xcbf29ce484222325)
+	for _, v := range ct.Value {
+		x = hashPoly(x, v)
+	}
+	return x
+}
+
+func (s *rtSession) decryptor(route string) *rlwe.Decryptor {
+	if d, ok := s.decs[route]; ok {
+		return d
+	}
+	d := buildDecryptor(s.params, route, s.sk, s.sk2)
+	s.decs[route] = d
+	return d
+}
+
 func runRT(c RTCase, rec *h.Rec) error {
 	params, err := c.Spec.Build()
 	if err != nil {
 		return h.Failf("C03:params-rejected", "generated literal rejected: %v", err)
 	}
-	n := params.N()
-	L := params.MaxLevel()
+	s := &rtSession{c: c, rec: rec, params: params, n: params.N(), L: params.MaxLevel(), decs: map[string]*rlwe.Decryptor{}}
 	kgen := rlwe.NewKeyGenerator(params)
-	sk := kgen.GenSecretKeyNew()
-	sk2 := kgen.GenSecretKeyNew()
-	sInts, err := secretInts(params, sk)
-	if err != nil {
+	s.sk = kgen.GenSecretKeyNew()
+	s.sk2 = kgen.GenSecretKeyNew()
+	if s.sInts, err = secretInts(params, s.sk); err != nil {
 		return h.Failf("C03:GenSecretKey:limbs-inconsistent", "%v", err)
 	}
-	s2Ints, err := secretInts(params, sk2)
-	if err != nil {
+	if s.s2Ints, err = secretInts(params, s.sk2); err != nil {
 		return h.Failf("C03:GenSecretKey:limbs-inconsistent", "%v", err)
 	}
-	if err := checkSecretDomain(c.Spec, sInts, "C03:GenSecretKey"); err != nil {
+	if err := checkSecretDomain(c.Spec, s.sInts, "C03:GenSecretKey"); err != nil {
 		return err
 	}
-	sStat := statsOf(sInts)
+	s.sStat = statsOf(s.sInts)
 
-	var key, other rlwe.EncryptionKey = sk, sk2
+	var other rlwe.EncryptionKey = s.sk2
+	s.key = s.sk
+	s.path = "sk"
 	if c.Kind == "pk" {
-		pk := kgen.GenPublicKeyNew(sk)
-		key, other = pk, sk2
+		s.pk = kgen.GenPublicKeyNew(s.sk)
+		s.key = s.pk
+		s.path = "pk-nop"
+		if len(c.Spec.P) > 0 {
+			s.path = "pk-moddown"
+		}
 	} else if c.Route == "withkey-other" && c.Seed&1 == 0 {
-		other = kgen.GenPublicKeyNew(sk2)
+		other = kgen.GenPublicKeyNew(s.sk2)
 	}
-	enc := buildEncryptor(params, c.Route, key, other, c.Seed)
-	seeded := c.Route == "withprng" || c.Route == "withprng-shallow"
-
-	rng := h.NewSplitMix(c.PtSeed)
-
-	// plaintext ------------------------------------------------------------------------------------------------
-	hasPt := c.API == "Encrypt" || c.API == "EncryptNew"
-	var pt *rlwe.Plaintext
-	var wantMeta *rlwe.MetaData
-	var ct *rlwe.Ciphertext
-	var level int
-
-	var encryptRaw func() (*rlwe.Ciphertext, error)
-	newTarget := func() *rlwe.Ciphertext {
-		t := rlwe.NewCiphertext(params, c.Degree, c.CtLevel)
-		if c.Dirty {
-			for i := range t.Value {
-				fillPoly(params.RingQ().AtLevel(c.CtLevel), t.Value[i], "uniform", rng)
-			}
-			junkMeta(t.MetaData, rng)
-		}
-		return t
+	s.enc = buildEncryptor(params, c.Route, s.key, other, c.Seed)
+	if c.Kind == "sk" && (c.Route == "withprng" || c.Route == "withprng-shallow") {
+		s.aSamp = ring.NewUniformSampler(keyedPRNG(c.Seed, "a"), params.RingQ())
 	}
-
-	setFlags := func(md *rlwe.MetaData) {
-		c.Meta.apply(md)
-		md.IsNTT = c.IsNTT
-		md.IsMontgomery = c.IsMont
-	}
-
-	encryptOnce := func() (x *rlwe.Ciphertext, err error) {
-		var skip bool
-		skip, err = guard(c.Spec, level < L, rec, func() (e error) { x, e = encryptRaw(); return })
-		if skip {
-			return nil, errSkip
-		}
-		return
-	}
-	encryptRaw = func() (*rlwe.Ciphertext, error) {
-		switch c.API {
-		case "Encrypt":
-			t := newTarget()
-			return t, enc.Encrypt(pt, t)
-		case "EncryptNew":
-			return enc.EncryptNew(pt)
-		case "EncryptZero":
-			t := newTarget()
-			setFlags(t.MetaData)
-			return t, enc.EncryptZero(t)
-		case "EncryptNil":
-			t := newTarget()
-			setFlags(t.MetaData)
-			return t, enc.Encrypt(nil, t)
-		default:
-			return enc.EncryptZeroNew(c.CtLevel), nil
-		}
-	}
-
-	switch c.API {
-	case "Encrypt", "EncryptNew":
-		pt = rlwe.NewPlaintext(params, c.PtLevel)
-		setFlags(pt.MetaData)
-		fillPoly(params.RingQ().AtLevel(c.PtLevel), pt.Value, c.Pattern, rng)
-		wantMeta = pt.MetaData.CopyNew()
-		level = c.PtLevel
-		if c.API == "Encrypt" && c.CtLevel < level {
-			level = c.CtLevel
-		}
-	case "EncryptZero", "EncryptNil":
-		wantMeta = &rlwe.MetaData{}
-		setFlags(wantMeta)
-		level = c.CtLevel
-	default:
-		wantMeta = rlwe.NewCiphertext(params, 1, c.CtLevel).MetaData.CopyNew()
-		level = c.CtLevel
-	}
-	isNTT := wantMeta.IsNTT
-
-	ct, err = encryptOnce()
-	if err == errSkip {
-		return nil
-	}
-	if err != nil {
-		return h.Failf("C03:"+c.API+":"+c.Kind+":error", "unexpected error: %v", err)
-	}
+	s.decW = rlwe.NewDecryptor(params, s.sk).WithKey(s.sk2)
+	s.rng = h.NewSplitMix(c.PtSeed)
+	s.keyHash = s.hashKeys()
 
 	rec.Classf("kind=%s", c.Kind)
 	rec.Classf("route=%s", c.Route)
-	rec.Classf("api=%s", c.API)
-	rec.Classf("degree=%d", c.Degree)
-	rec.Classf("level=%s", levelClass(level, L))
-	rec.Classf("flags=ntt:%v,mont:%v", isNTT, wantMeta.IsMontgomery)
-	rec.Classf("N=%d", n)
+	rec.Classf("path=%s", s.path)
+	rec.Classf("N=%d", s.n)
 	if c.Spec.CI {
 		rec.Class("ring=ci")
 	} else {
@@ -279,150 +303,333 @@ func runRT(c RTCase, rec *h.Rec) error {
 	rec.Classf("nP=%d", len(c.Spec.P))
 	rec.Classf("xs=%s", distClass(c.Spec.Xs))
 	rec.Classf("xe=%s", distClass(c.Spec.Xe))
-	path := c.Kind
-	if c.Kind == "pk" {
-		if len(c.Spec.P) > 0 {
-			path = "pk-moddown"
-		} else {
-			path = "pk-nop"
+	rec.Classf("steps=%d", 1+len(c.More))
+
+	steps := append([]RTStep{c.RTStep}, c.More...)
+	nontrivial := false
+	var desc string
+	for i, st := range steps {
+		stop, nt, d, err := s.step(st, i)
+		if err != nil {
+			return err
+		}
+		if stop {
+			return nil
+		}
+		if i == 0 {
+			nontrivial, desc = nt, d
+		} else if nt {
+			nontrivial = true
+			desc += "||" + d
 		}
 	}
-	rec.Classf("path=%s", path)
+	if nontrivial {
+		rec.NonTrivial(desc)
+	}
+	return nil
+}
 
-	kbase := fmt.Sprintf("C03:%s:%s", c.API, path)
+// step performs one use of the session. stop: the case ended on a listed finding.
+func (s *rtSession) step(st RTStep, idx int) (stop, nontrivial bool, desc string, err error) {
+	c, rec, params, n, L, path := s.c, s.rec, s.params, s.n, s.L, s.path
+	rng := s.rng
+	tag := ""
+	if idx > 0 {
+		tag = "later:"
+	}
+	fail := func(e error) (bool, bool, string, error) { return false, false, "", e }
 
-	// shape and metadata of the ciphertext ------------------------------------------------------------------------
-	if ct.Level() != level {
-		return h.Failf(kbase+":ct-level", "ciphertext level %d, want min(pt,ct)=%d", ct.Level(), level)
+	if st.Degree == 0 && s.aSamp == nil {
+		st.Degree = 1
 	}
-	if ct.Degree() != c.Degree {
-		return h.Failf(kbase+":ct-degree", "ciphertext degree %d, want %d", ct.Degree(), c.Degree)
+	hasPt := st.API == "Encrypt" || st.API == "EncryptNew"
+	takesTarget := st.API == "Encrypt" || st.API == "EncryptZero" || st.API == "EncryptNil"
+	reuseCt := st.ReuseCt && s.prevCt != nil && takesTarget
+	if reuseCt {
+		// the receiver keeps the degree and the level its earlier life left it with
+		st.Degree = s.prevCt.Degree()
+		st.CtLevel = s.prevCt.Level()
 	}
-	if !metaEqual(ct.MetaData, wantMeta) {
-		return h.Failf(kbase+":ct-metadata", "ciphertext metadata %s, want %s", metaString(ct.MetaData), metaString(wantMeta))
+	if !takesTarget {
+		st.Degree = 1
 	}
+
+	setFlags := func(md *rlwe.MetaData) {
+		st.Meta.apply(md)
+		md.IsNTT = st.IsNTT
+		md.IsMontgomery = st.IsMont
+	}
+	freshTarget := func() *rlwe.Ciphertext {
+		t := rlwe.NewCiphertext(params, st.Degree, st.CtLevel)
+		if st.Dirty {
+			for i := range t.Value {
+				fillPoly(params.RingQ().AtLevel(st.CtLevel), t.Value[i], "uniform", rng)
+			}
+			junkMeta(t.MetaData, rng)
+		}
+		return t
+	}
+
+	// plaintext and expectations -------------------------------------------------------------------------------------
+	var pt *rlwe.Plaintext
+	var wantMeta *rlwe.MetaData
+	var level int
+	switch st.API {
+	case "Encrypt", "EncryptNew":
+		pt = rlwe.NewPlaintext(params, st.PtLevel)
+		setFlags(pt.MetaData)
+		fillPoly(params.RingQ().AtLevel(st.PtLevel), pt.Value, st.Pattern, rng)
+		wantMeta = pt.MetaData.CopyNew()
+		level = st.PtLevel
+		if st.API == "Encrypt" && st.CtLevel < level {
+			level = st.CtLevel
+		}
+	case "EncryptZero", "EncryptNil":
+		wantMeta = &rlwe.MetaData{}
+		setFlags(wantMeta)
+		level = st.CtLevel
+	default:
+		wantMeta = rlwe.NewCiphertext(params, 1, st.CtLevel).MetaData.CopyNew()
+		level = st.CtLevel
+	}
+	isNTT := wantMeta.IsNTT
+	var ptHash uint64
+	var ptMeta *rlwe.MetaData
+	if hasPt {
+		ptHash, ptMeta = hashPoly(1, pt.Value), pt.MetaData.CopyNew()
+	}
+
+	encryptInto := func(target *rlwe.Ciphertext) (x *rlwe.Ciphertext, err error) {
+		var skip bool
+		skip, err = guard(c.Spec, level < L, rec, func() (e error) {
+			switch st.API {
+			case "Encrypt":
+				x, e = target, s.enc.Encrypt(pt, target)
+			case "EncryptNew":
+				x, e = s.enc.EncryptNew(pt)
+			case "EncryptZero":
+				setFlags(target.MetaData)
+				x, e = target, s.enc.EncryptZero(target)
+			case "EncryptNil":
+				setFlags(target.MetaData)
+				x, e = target, s.enc.Encrypt(nil, target)
+			default:
+				x = s.enc.EncryptZeroNew(st.CtLevel)
+			}
+			return
+		})
+		if skip {
+			return nil, errSkip
+		}
+		return
+	}
+	target := func(first bool) *rlwe.Ciphertext {
+		if !takesTarget {
+			return nil
+		}
+		if first && reuseCt {
+			return s.prevCt
+		}
+		return freshTarget()
+	}
+
+	kbase := fmt.Sprintf("C03:%s%s:%s", tag, st.API, path)
+	errKey := "C03:" + tag + st.API + ":" + c.Kind + ":error"
 
 	ringQ := params.RingQ().AtLevel(level)
+	ringCt := ringQ
 
-	// full ciphertext (degree 0: c1 is regenerated from an identical keyed PRNG, as lattigo's own test does) ---------
-	var aSampler ring.Sampler
-	if seeded && c.Kind == "sk" {
-		aSampler = ring.NewUniformSampler(keyedPRNG(c.Seed, "a"), ringQ)
-	}
+	// expand: degree 0 -> c1 regenerated from an identical keyed PRNG, as lattigo's own test does; degree >= 1 with
+	// WithPRNG: c1 must be that stream
 	expand := func(x *rlwe.Ciphertext) (*rlwe.Ciphertext, error) {
-		if aSampler == nil {
+		if s.aSamp == nil {
 			return x, nil
 		}
-		a := aSampler.ReadNew()
-		if x.Degree() == 1 {
+		a := s.aSamp.AtLevel(level).ReadNew()
+		a.Resize(level)
+		if x.Degree() >= 1 {
 			if !ringQ.Equal(x.Value[1], a) {
 				return nil, h.Failf(kbase+":withprng:c1-not-from-prng", "c1 differs from the stream of the PRNG given to WithPRNG")
 			}
 			return x, nil
 		}
-		if x.Degree() == 0 {
-			return &rlwe.Ciphertext{Element: rlwe.Element[ring.Poly]{MetaData: x.MetaData, Value: []ring.Poly{x.Value[0], a}}}, nil
-		}
-		return x, nil
-	}
-	full, err := expand(ct)
-	if err != nil {
-		return err
+		return &rlwe.Ciphertext{Element: rlwe.Element[ring.Poly]{MetaData: x.MetaData, Value: []ring.Poly{x.Value[0], a}}}, nil
 	}
 
-	// decryption ------------------------------------------------------------------------------------------------
-	dec := buildDecryptor(params, c.DecRoute, sk, sk2)
-	decLevel := c.DecLevel
-	if decLevel < 0 || c.DecRoute == "DecryptNew" {
+	// decryption receivers --------------------------------------------------------------------------------------------
+	dec := s.decryptor(st.DecRoute)
+	reuseOut := st.ReuseOut && s.prevOut != nil && st.DecRoute != "DecryptNew"
+	decLevel := st.DecLevel
+	if decLevel < 0 || st.DecRoute == "DecryptNew" {
 		decLevel = level
+	}
+	if reuseOut {
+		decLevel = s.prevOut.Level()
 	}
 	outLevel := level
 	if decLevel < outLevel {
 		outLevel = decLevel
 	}
-	decrypt := func(d *rlwe.Decryptor, x *rlwe.Ciphertext) *rlwe.Plaintext {
-		if c.DecRoute == "DecryptNew" {
+	decrypt := func(d *rlwe.Decryptor, x *rlwe.Ciphertext, first bool) *rlwe.Plaintext {
+		if st.DecRoute == "DecryptNew" {
 			return d.DecryptNew(x)
 		}
-		o := rlwe.NewPlaintext(params, decLevel)
-		if c.Dirty {
-			fillPoly(params.RingQ().AtLevel(decLevel), o.Value, "uniform", rng)
-			junkMeta(o.MetaData, rng)
+		var o *rlwe.Plaintext
+		if first && reuseOut {
+			o = s.prevOut
+		} else {
+			o = rlwe.NewPlaintext(params, decLevel)
+			if st.Dirty {
+				fillPoly(params.RingQ().AtLevel(decLevel), o.Value, "uniform", rng)
+				junkMeta(o.MetaData, rng)
+			}
 		}
 		d.Decrypt(x, o)
 		return o
 	}
-	out := decrypt(dec, full)
-	rec.Classf("dec=%s", c.DecRoute)
-	if outLevel != level {
-		rec.Class("dec-level<ct-level")
-	}
-
-	if out.Level() != outLevel {
-		return h.Failf("C03:Decrypt:level", "decrypted plaintext level %d, want min(ct,pt)=%d", out.Level(), outLevel)
-	}
-	if !metaEqual(out.MetaData, wantMeta) {
-		return h.Failf("C03:Decrypt:metadata", "decrypted metadata %s, plaintext metadata %s", metaString(out.MetaData), metaString(wantMeta))
-	}
-
-	// error = Dec(Enc(pt)) - pt -----------------------------------------------------------------------------------
 	ringOut := params.RingQ().AtLevel(outLevel)
 	ref := ringOut.NewPoly()
 	if hasPt {
 		ref.CopyLvl(outLevel, pt.Value)
 	}
-	raw, dom, Q := diffCentred(ringOut, out.Value, ref, isNTT)
 
 	var bound float64
 	switch path {
 	case "sk":
 		bound = c.Spec.Xe.AbsBound()
 	case "pk-nop":
-		bound = pkNoiseBound(c.Spec, sStat)
+		bound = pkNoiseBound(c.Spec, s.sStat)
 	default:
-		bound = pkNoiseBound(c.Spec, sStat)/float64(c.Spec.P[0]) + modDownSlack(c.Spec, sStat)
+		bound = pkNoiseBound(c.Spec, s.sStat)/float64(c.Spec.P[0]) + modDownSlack(c.Spec, s.sStat)
 	}
 	bBig := bigOfFloat(bound)
-	q16 := new(big.Int).Rsh(Q, 4)
-	discriminates := bBig.Cmp(q16) < 0
+	Qout := h.ProdU(params.Q()[:outLevel+1])
+	discriminates := bBig.Cmp(new(big.Int).Rsh(Qout, 4)) < 0
 
-	nRaw, nDom := h.InfNorm(raw), h.InfNorm(dom)
-	okRaw, okDom := nRaw.Cmp(bBig) <= 0, nDom.Cmp(bBig) <= 0
-	// Since b3d8830 every *Ciphertext path honours the flag as documented ("the ciphertext is in the Montgomery domain"):
-	// flag set => the encryption of zero is in the Montgomery domain (error small after IMForm), flag clear => raw.
-	if wantOK, otherOK := okRaw, okDom; discriminates {
-		if wantMeta.IsMontgomery {
-			wantOK, otherOK = okDom, okRaw
+	classKey := func(k string) string {
+		switch {
+		case st.Degree == 2 && (st.Dirty || reuseCt):
+			return keyDegree2Stale
+		case path == "sk" && st.Degree == 2 && !isNTT:
+			return keySkDegree2Coeff
+		case sparseErrClass(c.Spec, isNTT, path):
+			return keySparseErr
+		case path == "sk" && st.Degree == 2:
+			return keySkDegree2
 		}
-		if !wantOK && otherOK {
-			return h.Failf(fmt.Sprintf("C03:%s:montgomery-flag-not-honoured", path), "IsMontgomery=%v but the error is small only under the other reading: |D|_inf = %s (raw) / %s (after IMForm), bound %s", wantMeta.IsMontgomery, nRaw, nDom, bBig)
-		}
+		return k
 	}
-	switch {
-	case okRaw && okDom:
-		rec.Class("mont=both")
-	case okRaw:
-		rec.Class("mont=raw")
-	case okDom:
-		rec.Class("mont=domain")
-	default:
-		key := kbase + fmt.Sprintf(":degree%d:noise-above-bound", c.Degree)
-		if c.Degree == 2 && c.Dirty {
-			key = keyDegree2Stale
-		} else if path == "sk" && c.Degree == 2 && !isNTT {
-			key = keySkDegree2Coeff
-		} else if sparseErrClass(c.Spec, isNTT, path) {
-			key = keySparseErr
-		} else if path == "sk" && c.Degree == 2 {
-			// one input class whatever the entry point: the secret-key path wrote the mask c1 into a buffer (fixed e5d2496)
-			key = keySkDegree2
+
+	// verify: every use is judged by the same oracles (shape, metadata, inputs intact, noise bound, Montgomery reading)
+	verify := func(x *rlwe.Ciphertext, first bool, which string) (full *rlwe.Ciphertext, out *rlwe.Plaintext, nRaw *big.Int, known bool, err error) {
+		if x.Level() != level {
+			return nil, nil, nil, false, h.Failf(kbase+":ct-level", "%sciphertext level %d, want min(pt,ct)=%d (plaintext level %d, receiver level %d)", which, x.Level(), level, st.PtLevel, st.CtLevel)
 		}
-		msg := fmt.Sprintf("|Dec(Enc(pt))-pt|_inf = %s (raw) / %s (Montgomery reading), bound %s, Q(level %d) has %d bits", nRaw, nDom, bBig, outLevel, Q.BitLen())
-		if rec.Known(key, msg) {
-			rec.Classf("known=%s", key)
-			return nil
+		for i := range x.Value {
+			if x.Value[i].Level() != level {
+				return nil, nil, nil, false, h.Failf(kbase+":ct-level", "%sciphertext component %d has level %d, want %d", which, i, x.Value[i].Level(), level)
+			}
 		}
-		return h.Failf(key, "%s", msg)
+		if x.Degree() != st.Degree {
+			return nil, nil, nil, false, h.Failf(kbase+":ct-degree", "%sciphertext degree %d, want %d", which, x.Degree(), st.Degree)
+		}
+		if !metaEqual(x.MetaData, wantMeta) {
+			return nil, nil, nil, false, h.Failf(kbase+":ct-metadata", "%sciphertext metadata %s, want %s", which, metaString(x.MetaData), metaString(wantMeta))
+		}
+		if hasPt && (hashPoly(1, pt.Value) != ptHash || !metaEqual(pt.MetaData, ptMeta) || pt.Level() != st.PtLevel) {
+			return nil, nil, nil, false, h.Failf(kbase+":input-modified:plaintext", "%sEncrypt modified its plaintext argument", which)
+		}
+		if s.hashKeys() != s.keyHash {
+			return nil, nil, nil, false, h.Failf(kbase+":input-modified:key", "%sa key was modified by encryption", which)
+		}
+		if full, err = expand(x); err != nil {
+			return
+		}
+		ctHash := hashCt(full)
+		out = decrypt(dec, full, first)
+		if hashCt(full) != ctHash || !metaEqual(full.MetaData, wantMeta) {
+			return nil, nil, nil, false, h.Failf("C03:"+tag+"Decrypt:input-modified:ciphertext", "%sDecrypt modified the ciphertext", which)
+		}
+		if s.hashKeys() != s.keyHash {
+			return nil, nil, nil, false, h.Failf("C03:"+tag+"Decrypt:input-modified:key", "%sa key was modified by decryption", which)
+		}
+		if out.Level() != outLevel {
+			return nil, nil, nil, false, h.Failf("C03:"+tag+"Decrypt:level", "%sdecrypted plaintext level %d, want min(ct,pt)=%d", which, out.Level(), outLevel)
+		}
+		if !metaEqual(out.MetaData, wantMeta) {
+			return nil, nil, nil, false, h.Failf("C03:"+tag+"Decrypt:metadata", "%sdecrypted metadata %s, plaintext metadata %s", which, metaString(out.MetaData), metaString(wantMeta))
+		}
+		raw, dom, _ := diffCentred(ringOut, out.Value, ref, isNTT)
+		nRaw = h.InfNorm(raw)
+		nDom := h.InfNorm(dom)
+		okRaw, okDom := nRaw.Cmp(bBig) <= 0, nDom.Cmp(bBig) <= 0
+		if !okRaw && !okDom {
+			key := classKey(kbase + fmt.Sprintf(":degree%d:noise-above-bound", st.Degree))
+			msg := fmt.Sprintf("%s|Dec(Enc(pt))-pt|_inf = %s (raw) / %s (Montgomery reading), bound %s, Q(level %d) has %d bits", which, nRaw, nDom, bBig, outLevel, Qout.BitLen())
+			if rec.Known(key, msg) {
+				rec.Classf("known=%s", key)
+				return nil, nil, nil, true, nil
+			}
+			return nil, nil, nil, false, h.Failf(key, "%s", msg)
+		}
+		// Since b3d8830 every *Ciphertext path honours the flag as documented ("the ciphertext is in the Montgomery domain"):
+		// flag set => the encryption of zero is in the Montgomery domain (error small after IMForm), flag clear => raw.
+		if discriminates {
+			wantOK := okRaw
+			if wantMeta.IsMontgomery {
+				wantOK = okDom
+			}
+			if !wantOK {
+				return nil, nil, nil, false, h.Failf(fmt.Sprintf("C03:%s%s:montgomery-flag-not-honoured", tag, path), "%sIsMontgomery=%v but the error is small only under the other reading: |D|_inf = %s (raw) / %s (after IMForm), bound %s", which, wantMeta.IsMontgomery, nRaw, nDom, bBig)
+			}
+		}
+		if first {
+			switch {
+			case okRaw && okDom:
+				rec.Class("mont=both")
+			case okRaw:
+				rec.Class("mont=raw")
+			default:
+				rec.Class("mont=domain")
+			}
+		}
+		return
+	}
+
+	// first encryption --------------------------------------------------------------------------------------------------
+	ct, err := encryptInto(target(true))
+	if err == errSkip {
+		return true, false, "", nil
+	}
+	if err != nil {
+		return fail(h.Failf(errKey, "unexpected error: %v", err))
+	}
+	rec.Classf("%sapi=%s", tag, st.API)
+	rec.Classf("%sdegree=%d", tag, st.Degree)
+	rec.Classf("%slevel=%s", tag, levelClass(level, L))
+	rec.Classf("%sflags=ntt:%v,mont:%v", tag, isNTT, wantMeta.IsMontgomery)
+	rec.Classf("%sdec=%s", tag, st.DecRoute)
+	if st.API == "Encrypt" && st.CtLevel > st.PtLevel {
+		rec.Classf("%sreceiver-level>pt-level", tag)
+	}
+	if reuseCt {
+		rec.Class("later:receiver=previous-ciphertext")
+	}
+	if reuseOut {
+		rec.Class("later:out=previous-plaintext")
+	}
+	if decLevel > level {
+		rec.Classf("%sdec-level>ct-level", tag)
+	} else if decLevel < level {
+		rec.Classf("%sdec-level<ct-level", tag)
+	}
+
+	full, out, nRaw, known, err := verify(ct, true, "")
+	if err != nil {
+		return fail(err)
+	}
+	if known {
+		return true, false, "", nil
 	}
 	if wantMeta.IsMontgomery {
 		rec.Class("montflag-set")
@@ -430,37 +637,40 @@ func runRT(c RTCase, rec *h.Rec) error {
 	// non-degeneracy: a secret-key ciphertext's error is the sampled e itself; it is identically zero only with the
 	// probability the declared distribution gives to the zero polynomial
 	if path == "sk" && nRaw.Sign() == 0 && zeroProbLog2(c.Spec.Xe, n) < -50 {
-		return h.Failf(kbase+":error-identically-zero", "Dec(Enc(pt)) == pt exactly: no error was added (declared Xe %+v gives this probability 2^%.0f)", c.Spec.Xe, zeroProbLog2(c.Spec.Xe, n))
+		return fail(h.Failf(kbase+":error-identically-zero", "Dec(Enc(pt)) == pt exactly: no error was added (declared Xe %+v gives this probability 2^%.0f)", c.Spec.Xe, zeroProbLog2(c.Spec.Xe, n)))
 	}
 
 	// independent error terms on c0 and c1 (P-less public-key path; see errorReused) ---------------------------------
 	if path == "pk-nop" {
-		pk := key.(*rlwe.PublicKey)
-		x0 := ringQ.NewPoly()
+		x0 := ringCt.NewPoly()
 		x0.CopyLvl(level, ct.Value[0])
 		if hasPt {
-			ringQ.Sub(x0, pt.Value, x0)
+			ringCt.Sub(x0, pt.Value, x0)
 		}
-		reused, applicable := errorReused(params, c.Spec, level, -1, ringqp.Poly{Q: x0}, ringqp.Poly{Q: ct.Value[1]}, pk, isNTT)
+		reused, applicable := errorReused(params, c.Spec, level, -1, ringqp.Poly{Q: x0}, ringqp.Poly{Q: ct.Value[1]}, s.pk, isNTT)
 		if applicable {
 			rec.Class("reuse=checked")
 			if reused {
-				return h.Failf(kbase+":error-reused", "(c0-pt-c1)/(pk0-pk1) is a polynomial of the secret distribution's size: c0 and c1 carry the same error polynomial")
+				return fail(h.Failf(kbase+":error-reused", "(c0-pt-c1)/(pk0-pk1) is a polynomial of the secret distribution's size: c0 and c1 carry the same error polynomial"))
 			}
 		}
 	}
 
-	// two encryptions of the same plaintext differ in every component -------------------------------------------
-	ct2, err := encryptOnce()
+	// a second encryption of the same plaintext (fresh receiver): judged as strictly, and differs in every component ------
+	// keep copies: the first ciphertext may be overwritten only by a later step
+	ct2, err := encryptInto(target(false))
 	if err == errSkip {
-		return nil
+		return true, false, "", nil
 	}
 	if err != nil {
-		return h.Failf("C03:"+c.API+":"+c.Kind+":error", "unexpected error on second encryption: %v", err)
+		return fail(h.Failf(errKey, "unexpected error on second encryption: %v", err))
 	}
-	full2, err := expand(ct2)
+	full2, _, _, known, err := verify(ct2, false, "second encryption: ")
 	if err != nil {
-		return err
+		return fail(err)
+	}
+	if known {
+		return true, false, "", nil
 	}
 	// (pk encryption: the division by P rounds the error terms away, so c0, c1 are functions of the mask u alone, and two
 	// encryptions coincide whenever the two u do; asserted where that has probability < 2^-50)
@@ -470,86 +680,87 @@ func runRT(c RTCase, rec *h.Rec) error {
 	}
 	for i := 0; repeatOK && i <= 1 && i <= full.Degree(); i++ {
 		if ringQ.Equal(full.Value[i], full2.Value[i]) {
-			return h.Failf(kbase+":repeat:component-equal", "two encryptions of the same plaintext have the same c%d", i)
+			return fail(h.Failf(kbase+":repeat:component-equal", "two encryptions of the same plaintext have the same c%d", i))
 		}
-	}
-	// the second one decrypts as well (state carried by the encryptor between calls)
-	out2 := decrypt(dec, full2)
-	raw2, dom2, _ := diffCentred(ringOut, out2.Value, ref, isNTT)
-	if h.InfNorm(raw2).Cmp(bBig) > 0 && h.InfNorm(dom2).Cmp(bBig) > 0 {
-		key := kbase + ":repeat:noise-above-bound"
-		if c.Degree == 2 && c.Dirty {
-			key = keyDegree2Stale
-		} else if path == "sk" && c.Degree == 2 && !isNTT {
-			key = keySkDegree2Coeff
-		} else if sparseErrClass(c.Spec, isNTT, path) {
-			key = keySparseErr
-		}
-		msg := fmt.Sprintf("second encryption: |Dec-pt|_inf = %s / %s, bound %s", h.InfNorm(raw2), h.InfNorm(dom2), bBig)
-		if rec.Known(key, msg) {
-			rec.Classf("known=%s", key)
-			return nil
-		}
-		return h.Failf(key, "%s", msg)
 	}
 	if sparseErrClass(c.Spec, isNTT, path) && h.IsKnown(keySparseErr) {
-		// both encryptions happened to land inside the bound; the remaining sub-oracles are not meaningful for this class
 		rec.Classf("known-class-passed=%s", keySparseErr)
-		return nil
+		return true, false, "", nil
 	}
 
 	// wrong key ----------------------------------------------------------------------------------------------------
-	// Needs s2 != s, and for pk encryption a mask u that is non-zero except with negligible probability.
-	wrongOK := !equalInts(sInts, s2Ints)
-	if c.Kind == "pk" && zeroProbLog2(c.Spec.Xs, n) > -50 {
-		wrongOK = false
-	}
-	if wrongOK {
-		decW := rlwe.NewDecryptor(params, sk).WithKey(sk2)
-		total := 0
-		sum := new(big.Int)
-		max := new(big.Int)
+	// Needs s' != s. A pk ciphertext whose mask u is zero has c1 = e1 (/P): such ciphertexts are left out of the pool when
+	// the declared Xs gives u = 0 a probability >= 2^-50, and are a violation otherwise.
+	if !equalInts(s.sInts, s.s2Ints) {
+		be := math.Max(c.Spec.Xe.AbsBound(), 2)
+		c1Small := func(x *rlwe.Ciphertext) bool {
+			if c.Kind != "sk" && x.Degree() >= 1 {
+				r, d, _ := diffCentred(ringQ, x.Value[1], ringQ.NewPoly(), isNTT)
+				return bigToFloat(h.InfNorm(r)) <= be || bigToFloat(h.InfNorm(d)) <= be
+			}
+			return false
+		}
+		total, tries, left := 0, 0, 0
+		sum, max := new(big.Int), new(big.Int)
 		cur := full
-		for total < 256 {
-			o := decrypt(decW, cur)
-			r, _, _ := diffCentred(ringOut, o.Value, ref, isNTT)
-			s, m := sumAbsAndMax(r)
-			sum.Add(sum, s)
-			if m.Cmp(max) > 0 {
-				max.Set(m)
+		for {
+			tries++
+			if c1Small(cur) {
+				if zeroProbLog2(c.Spec.Xs, n) < -50 {
+					return fail(h.Failf(kbase+":degenerate-mask", "c1 of a public-key ciphertext is within the error bound (|c1|_inf <= %v): the mask u*pk1 is missing", be))
+				}
+				left++
+			} else {
+				o := decrypt(s.decW, cur, false)
+				r, _, _ := diffCentred(ringOut, o.Value, ref, isNTT)
+				sa, m := sumAbsAndMax(r)
+				sum.Add(sum, sa)
+				if m.Cmp(max) > 0 {
+					max.Set(m)
+				}
+				total += n
 			}
-			total += n
-			if total < 256 {
-				nx, err := encryptOnce()
-				if err == errSkip {
-					return nil
-				}
-				if err != nil {
-					return h.Failf("C03:"+c.API+":"+c.Kind+":error", "unexpected error: %v", err)
-				}
-				if cur, err = expand(nx); err != nil {
-					return err
-				}
+			if total >= 256 || tries >= 40 {
+				break
+			}
+			nx, err := encryptInto(target(false))
+			if err == errSkip {
+				return true, false, "", nil
+			}
+			if err != nil {
+				return fail(h.Failf(errKey, "unexpected error: %v", err))
+			}
+			if cur, err = expand(nx); err != nil {
+				return fail(err)
 			}
 		}
-		q8 := new(big.Int).Rsh(Q, 3)
-		mean := new(big.Int).Div(sum, big.NewInt(int64(total)))
-		if max.Cmp(q8) < 0 || mean.Cmp(q8) < 0 {
-			return h.Failf(kbase+":wrong-key:readable", "decryption under an independent key: max |d| = %s, mean |d| = %s over %d coefficients, Q/8 = %s", max, mean, total, q8)
+		if total >= 256 {
+			q8 := new(big.Int).Rsh(Qout, 3)
+			mean := new(big.Int).Div(sum, big.NewInt(int64(total)))
+			if max.Cmp(q8) < 0 || mean.Cmp(q8) < 0 {
+				return fail(h.Failf(kbase+":wrong-key:readable", "decryption under an independent key: max |d| = %s, mean |d| = %s over %d coefficients, Q/8 = %s", max, mean, total, q8))
+			}
+			rec.Classf("wrongkey=checked:%s", path)
+			if left > 0 {
+				rec.Class("wrongkey:zero-mask-ciphertexts-left-out")
+			}
+		} else {
+			rec.Class("wrongkey=skipped")
 		}
-		rec.Class("wrongkey=checked")
 	} else {
 		rec.Class("wrongkey=skipped")
 	}
 
-	copyRoute := c.Route != "new"
-	if discriminates && (level < L || isNTT != params.NTTFlag() || wantMeta.IsMontgomery || copyRoute || c.Degree != 1 || !c.Meta.isDefault()) {
-		rec.NonTrivial(fmt.Sprintf("%s|%s|%s|%s|deg%d|lvl=%s|ntt=%v,mont=%v|%s|pat=%s|dec=%s|declvl=%v|dirty=%v", specClass(c.Spec), path, c.Route, c.API, c.Degree, levelClass(level, L), isNTT, wantMeta.IsMontgomery, levelClass(c.PtLevel, L)+"/"+levelClass(c.CtLevel, L), c.Pattern, c.DecRoute, outLevel != level, c.Dirty))
-	}
+	s.prevCt, s.prevOut = ct, out
+
 	if !discriminates {
 		rec.Class("bound>=Q/16")
+		return false, false, "", nil
 	}
-	return nil
+	copyRoute := c.Route != "new"
+	nontrivial = level < L || isNTT != params.NTTFlag() || wantMeta.IsMontgomery || copyRoute || st.Degree != 1 || !st.Meta.isDefault() || idx > 0
+	desc = fmt.Sprintf("%s|%s|%s|%s|deg%d|lvl=%s|ntt=%v,mont=%v|%s|pat=%s|dec=%s|declvl=%d|dirty=%v|reuse=%v,%v", specClass(c.Spec), path, c.Route, st.API, st.Degree, levelClass(level, L), isNTT, wantMeta.IsMontgomery, levelClass(st.PtLevel, L)+"/"+levelClass(st.CtLevel, L), st.Pattern, st.DecRoute, decLevel-level, st.Dirty, reuseCt, reuseOut)
+	return false, nontrivial, desc, nil
 }
 
 var propRT = h.NewProp("TestPropRoundTrip", h.Budget{Quick: 4000, Thorough: 48000}, genRT, runRT)
